@@ -681,7 +681,7 @@ func runC16Maps(c *Ctx, pols []*iterPolicy, prefix, indent string) *Violation {
 	t := c.T
 	n := 1 + t.Small(4)
 	if t.Draw(8) == 7 {
-		n = 5 + t.Small(12) // now and then a long list (anything sized by a small constant overflows)
+		n = 5 + t.Small(44) // now and then a long list (anything sized by a small constant overflows)
 		c.C["probe.long_maps_lists"]++
 	}
 	var mvs mxj.Maps
